@@ -26,8 +26,9 @@ def run(ctx, db, tier):
     # the payload is written before the operation that lets other threads learn 'ready' (every resolver, incl. set_exception)
     C01.resolvers(ctx, db, 'C03.payload-before-ready', 'C03.payload-before-ready-verdict')
     # the mutex's FIFO is plain memory owned by the lock holder: after the hand-over the new owner may be running on another thread
-    from . import C07
+    from . import C07, C02
     C07.unlock_once(ctx, db, 'C03.fifo-untouched-after-handover')
+    C02.link_current(ctx, db, 'C03.chain-push-links-current-top')
     summ = publish.Summaries(db)
     publish.check_no_touch(ctx, db, 'C03.R2-no-touch-after-publish', summ, per_instance=per_inst, floor=12)
     la = locks.check_guarded(ctx, db, 'C03.R3-lock-discipline', GUARDED, GUARDED_CLASSES, per_instance=per_inst, floor=40)
